@@ -6,6 +6,7 @@ import (
 	"go/token"
 	"go/types"
 	"regexp"
+	"sort"
 	"strings"
 
 	"occheck/internal/engine"
@@ -61,6 +62,15 @@ func runC03(c *engine.Ctx, tier string) {
 		Why:     "values are merged exactly once, on the predecessor's result, and the same write moves the cursor"})
 	// a value stays readable "until it is rolled back": what a rollback writes back must differ, for the store, from what the change wrote
 	captureLoopAs(c, "C03.13")
+	// "nothing else changes": the proposal built for one target of a Set holds that target's values only
+	var all []string
+	for _, pkg := range c.P.Pkgs {
+		if rel := strings.TrimPrefix(pkg.PkgPath, engine.ModulePath+"/"); strings.HasPrefix(rel, "pkg/") {
+			all = append(all, rel)
+		}
+	}
+	sort.Strings(all)
+	perIterationFresh(c, "C03.15", all, 20)
 }
 
 var pathNameRe = regexp.MustCompile(`(?i)path|prefix`)
@@ -213,22 +223,51 @@ func getFilterBoundary(c *engine.Ctx, id string) {
 	o := c.Custom(id, "pathrel(regexp)", "MatchWildcardRegexp: exact → ^%s$; non-exact → the expression ends in a group that has '$' as an alternative (node itself or something beneath it), or the query ends in '/'",
 		"a Get for /a/b must not return /a/bc")
 	defer o.Done(2)
-	paths, err := c.A.PathsOpt(pkgUtils, engine.PathOpts{Roots: []string{"utils.MatchWildcardRegexp"}, NoInline: true})
+	// the expression may be built by a helper shared between the panicking and the error-returning
+	// compile functions: helpers of the package are inlined, the result is judged at the exported roots
+	paths, err := c.A.PathsOpt(pkgUtils, engine.PathOpts{Roots: []string{"utils.MatchWildcardRegexp", "utils.CompileWildcardRegexp"}, Exact: true})
 	if err != nil {
 		o.Undecided("MatchWildcardRegexp", err.Error())
 		return
 	}
 	boundaryRe := regexp.MustCompile(`^"\^%s\(([^()]*\|)*\$(\|[^()]*)*\)"$`)
+	// a wrapper that only compiles what a helper of the package builds from the same two arguments is
+	// replaced by that helper's paths
+	wrapRe := regexp.MustCompile(`^regexp\.(?:Must)?Compile\((utils\.\w+)\(\$query,\$exact\)\)$`)
+	helpers := map[string]bool{}
+	var direct []*engine.Path
 	for _, p := range paths {
 		last := &p.Events[len(p.Events)-1]
-		if last.Kind != engine.EvReturn || len(last.Results) != 1 {
+		if last.Kind == engine.EvReturn && len(last.Results) >= 1 {
+			if m := wrapRe.FindStringSubmatch(last.Results[0]); m != nil {
+				helpers[m[1]] = true
+				o.Site(c.P.Pos(last.Pos) + " " + last.Results[0])
+				continue
+			}
+		}
+		direct = append(direct, p)
+	}
+	for h := range helpers {
+		hp, err := c.A.PathsOpt(pkgUtils, engine.PathOpts{Roots: []string{h}, Exact: true, NoInline: true})
+		if err != nil || len(hp) == 0 {
+			o.Undecided(h, fmt.Sprintf("no paths: %v", err))
+			continue
+		}
+		direct = append(direct, hp...)
+	}
+	for _, p := range direct {
+		last := &p.Events[len(p.Events)-1]
+		if last.Kind != engine.EvReturn || len(last.Results) < 1 || len(last.Results) > 2 {
 			continue
 		}
 		r := last.Results[0]
+		if strings.HasPrefix(r, "fmt.Sprintf(") && helpers[p.Root.Name()] {
+			r = "regexp.Compile(" + r + ")"
+		}
 		o.Site(c.P.Pos(last.Pos) + " " + r)
 		o.Eval(1)
 		i := strings.Index(r, "fmt.Sprintf(")
-		if !strings.HasPrefix(r, "regexp.MustCompile(fmt.Sprintf(") || i < 0 {
+		if !(strings.HasPrefix(r, "regexp.MustCompile(fmt.Sprintf(") || strings.HasPrefix(r, "regexp.Compile(fmt.Sprintf(")) || i < 0 {
 			o.Fail(&engine.Violation{Key: "MatchWildcardRegexp|shape", Pos: c.P.Pos(last.Pos), Func: p.Root.Name(), Msg: "unexpected result shape " + r})
 			continue
 		}
